@@ -1,4 +1,5 @@
-(* Agreement: the families of scalars covered by proofs, assembled. *)
+(* Agreement: every scalar family of the supported subset is covered; the theorem for whole
+   blocks needs no premise beyond well-formedness. *)
 From Coq Require Import List NArith Bool Lia ZifyBool Arith.
 From MV Require Import Base.PyStr.
 From MV Require Import Base.Res.
@@ -9,36 +10,33 @@ From MV Require Import Opt.OptAgreeBase.
 From MV Require Import Opt.OptAgreePlain.
 From MV Require Import Opt.OptAgree.
 From MV Require Import Opt.OptAgreeTop.
+From MV Require Import Opt.OptAgreeBlock.
+From MV Require Import Opt.OptAgreeFlow.
+From MV Require Import Opt.OptAgreeQuoted.
 Import ListNotations.
 Open Scope N_scope.
 
-(* the scalar families for which key_spec / value_spec are proved *)
-Definition covered_key (k : key) : bool :=
-  match k with KPlain _ => true | _ => false end.
-Definition covered_value (v : value) : bool :=
-  match v with
-  | VNone _ _ => true
-  | VFlow _ (FPlain _ _) _ _ => true
-  | _ => false
-  end.
-Definition covered_item (it : item) : bool :=
-  match it with IComment _ _ => true | IKV k _ v _ => covered_key k && covered_value v end.
-Definition covered_block (b : block) : bool := forallb covered_item (b_items b).
-
-Lemma covered_item_ok it : wf_item it = true -> covered_item it = true -> item_ok it.
+Lemma wf_item_ok it : wf_item it = true -> OptAgree.item_ok it.
 Proof.
   destruct it as [t tr|k ksp v tr]; [intros; exact I|].
-  cbn [wf_item covered_item item_ok]. intros Hwf Hcov.
-  apply andb_true_iff in Hwf as [Hk Hv]. apply andb_true_iff in Hcov as [Ck Cv]. split.
-  - destruct k as [l|t|t]; try discriminate. apply key_spec_plain. exact Hk.
-  - destruct v as [tsp cm|vsp f tsp cm|vsp folded h lead indent first more]; [exact I | | discriminate].
-    destruct f as [l0 more|l0 more|l0 more]; try discriminate. apply value_spec_plain. exact Hv.
+  cbn [wf_item OptAgree.item_ok]. intros Hwf. apply andb_true_iff in Hwf as [Hk Hv]. split.
+  - destruct k as [l|t|t].
+    + apply key_spec_plain. exact Hk.
+    + apply key_spec_single. exact Hk.
+    + apply key_spec_double. exact Hk.
+  - destruct v as [tsp cm|vsp f tsp cm|vsp folded h lead indent first more]; [exact I | |].
+    + destruct f as [l0 more|l0 more|l0 more].
+      * apply value_spec_plain. exact Hv.
+      * apply value_spec_single. exact Hv.
+      * apply value_spec_double. exact Hv.
+    + apply value_spec_block. exact Hv.
 Qed.
 
-Theorem yaml_agree_covered b : wf_block b = true -> covered_block b = true ->
+(* per family: a block whose only item has the given key / value *)
+Theorem yaml_agree b : wf_block b = true ->
   options_to_items (print_block b) = Ok (meaning_block b).
 Proof.
-  intros Hwf Hcov. apply block_agree; [exact Hwf|].
-  unfold wf_block, covered_block in *. rewrite forallb_forall in *.
-  apply Forall_forall. intros it Hin. apply covered_item_ok; auto.
+  intros Hwf. apply block_agree; [exact Hwf|].
+  unfold wf_block in Hwf. rewrite forallb_forall in Hwf.
+  apply Forall_forall. intros it Hin. apply wf_item_ok. auto.
 Qed.
